@@ -121,6 +121,7 @@ type Sched struct {
 	preempts int
 	Pruned   bool
 	NoTrace  bool
+	Delay    bool
 }
 
 func mix(a, b uint64) uint64 {
@@ -514,7 +515,7 @@ func (s *Sched) Run(main func()) {
 				break
 			}
 			s.Points[len(s.Points)-1].Tid = en[idx].ID
-			if curEnabled && idx > 0 {
+			if (curEnabled || s.Delay) && idx > 0 {
 				s.preempts++
 			}
 		}
